@@ -18,6 +18,13 @@ namespace CffiVerif.Mem
 
 abbrev Bytes := List UInt8
 
+/-- Results of model operations are compared by `decide` in examples and witnesses. -/
+instance instDecEqExcept {ε α : Type} [DecidableEq ε] [DecidableEq α] : DecidableEq (Except ε α)
+  | .ok a, .ok b => if h : a = b then isTrue (by rw [h]) else isFalse (fun e => h (by injection e))
+  | .error a, .error b => if h : a = b then isTrue (by rw [h]) else isFalse (fun e => h (by injection e))
+  | .ok _, .error _ => isFalse (fun e => by cases e)
+  | .error _, .ok _ => isFalse (fun e => by cases e)
+
 structure View where
   base : Nat
   off : Nat
